@@ -424,4 +424,24 @@ def _load_images(frames_dir: str) -> list:
         os.path.join(frames_dir, frame)
         for frame in sorted(os.listdir(frames_dir), key=_frame_sort_key)
     ]
-    return [imageio.imread(frame) for frame in frames]
+    return _pad_to_same_shape([imageio.imread(frame) for frame in frames])
+
+
+def _pad_to_same_shape(images: list) -> list:
+    """Frames are saved with a tight bounding box, so their size changes
+    with their content (e.g. once the legend shows "Job 10"). Writers need
+    frames of one size: smaller frames are padded with white."""
+    if not images:
+        return images
+    height = max(image.shape[0] for image in images)
+    width = max(image.shape[1] for image in images)
+    padded = []
+    for image in images:
+        if image.shape[:2] != (height, width):
+            canvas = np.full(
+                (height, width) + image.shape[2:], 255, dtype=image.dtype
+            )
+            canvas[: image.shape[0], : image.shape[1]] = image
+            image = canvas
+        padded.append(image)
+    return padded
